@@ -48,12 +48,12 @@ def release_ports(ports):
 
 
 def alloc_ports(n=2):
-    """Ports from 20000-29999 (outside the ephemeral range), reserved across processes and test-bound before use."""
+    """Ports from 11000-18999 (outside the ephemeral range), reserved across processes and test-bound before use."""
     with _port_lock:
         out = []
         while len(out) < n:
             c = next(_port_counter)
-            p = 20000 + (os.getpid() * 131 + c * 7) % 10000
+            p = 11000 + (os.getpid() * 131 + c * 7) % 8000
             if p not in out and _claim(p):
                 if _free(p):
                     out.append(p)
@@ -71,8 +71,13 @@ def helper_key(argv0, cwd):
 
 
 class Fixture:
-    def __init__(self, bins, targets, sequences=None, max_retained_runs=None, extra_cfg=None, gitignore=None, lock_host=None):
-        """targets: list of dicts {path, uses?, ignores?, commands?, argmaps?}"""
+    def __init__(self, bins, targets, sequences=None, max_retained_runs=None, extra_cfg=None, gitignore=None, lock_host=None,
+                 via=None, ignore_via=None):
+        """targets: list of dicts {path, uses?, ignores?, commands?, argmaps?}
+        via: how the configuration file is named on the command line -- "plain" (canonical path), "link" (through a
+        symbolic link to the repository), "dotdot" (a path with a `..` component).  monorail takes its work path from
+        that argument as typed, so all three name the same repository.  None: derived from the configuration (so that a
+        replayed scenario is invoked the same way)."""
         self.bins = bins
         self.root = os.path.realpath(tempfile.mkdtemp(prefix="verif-fx-"))
         self.repo = os.path.join(self.root, "repo")
@@ -88,17 +93,45 @@ class Fixture:
         self.extra_cfg = extra_cfg or {}
         self.lock_host = lock_host      # e.g. "localhost": a name that has to be resolved instead of an address literal
         self.cfg_path = os.path.join(self.repo, "Monorail.json")
+        if via is None:
+            hv = hashlib.sha256(json.dumps([targets, sequences, extra_cfg], sort_keys=True, default=str).encode()).digest()[0]
+            via = ("plain", "link", "dotdot", "plain")[hv % 4]
+        if os.environ.get("VERIF_VIA"):
+            via = os.environ["VERIF_VIA"]
+        self.via = via
+        if via == "link":
+            os.symlink("repo", os.path.join(self.root, "lnk"))
+            self.wp = os.path.join(self.root, "lnk")
+        elif via == "dotdot":
+            self.wp = os.path.join(self.root, "helper", "..", "repo")
+        else:
+            self.wp = self.repo
+        self.cfg_arg = os.path.join(self.wp, "Monorail.json")     # the -f argument; cfg_path stays the physical file
+        # where the caller's ignore patterns live: git's three standard exclude sources name the same set of paths
+        if ignore_via is None:
+            ignore_via = ("tree", "info", "global")[hashlib.sha256(json.dumps([targets, gitignore], sort_keys=True, default=str).encode()).digest()[1] % 3]
+        self.ignore_via = os.environ.get("VERIF_IGNORE_VIA") or ignore_via
+        # a temporary directory on another file system than the repository, when the machine has one
+        self.tmpdir = None
+        try:
+            if os.path.isdir("/dev/shm") and os.stat("/dev/shm").st_dev != os.stat(self.root).st_dev and os.access("/dev/shm", os.W_OK):
+                self.tmpdir = tempfile.mkdtemp(prefix="verif-tmp-", dir="/dev/shm")
+        except OSError:
+            self.tmpdir = None
         self.cmd_files = {}   # (target, cmd) -> (argv0, cwd, key)
         self.procs = []
         with open(os.path.join(self.home, "gitconfig"), "w") as f:
             f.write("[user]\n\tname = verif\n\temail = verif@example.invalid\n[init]\n\tdefaultBranch = main\n"
-                    "[core]\n\tquotepath = true\n")
+                    "[core]\n\tquotepath = true\n\texcludesFile = %s\n" % os.path.join(self.home, "ignore_global"))
+        with open(os.path.join(self.home, "ignore_global"), "w") as f:
+            f.write((gitignore or "") if self.ignore_via == "global" else "")
+        self._info_exclude = (gitignore or "") if self.ignore_via == "info" else ""
         for t in targets:
             os.makedirs(os.path.join(self.repo, t["path"]), exist_ok=True)
             with open(os.path.join(self.repo, t["path"], "src.txt"), "w") as f:
                 f.write("src of %s\n" % t["path"])
         with open(os.path.join(self.repo, ".gitignore"), "w") as f:
-            f.write("monorail-out/\n" + (gitignore or ""))
+            f.write("monorail-out/\n" + ((gitignore or "") if self.ignore_via == "tree" else ""))
         self.write_config()
 
     # ------------------------------------------------------------------ config / git
@@ -122,6 +155,8 @@ class Fixture:
         e = dict(os.environ)
         e.update({"GIT_CONFIG_GLOBAL": os.path.join(self.home, "gitconfig"), "GIT_CONFIG_NOSYSTEM": "1",
                   "HOME": self.home, "VERIF_HELPER_DIR": self.hdir, "LC_ALL": "C"})
+        if self.tmpdir:
+            e["TMPDIR"] = self.tmpdir
         for k in list(e):
             if k.startswith("MONORAIL_VERIF_"):
                 del e[k]
@@ -137,7 +172,19 @@ class Fixture:
         return p.stdout
 
     def git_init(self, commit=True):
-        self.git("init", "-q")
+        # every fourth repository keeps its git directory elsewhere: `.git` is then a FILE naming it (as in a linked
+        # working tree or a submodule checkout); the directory is the top of a work tree all the same
+        hv = hashlib.sha256(json.dumps([self.targets, self.sequences], sort_keys=True, default=str).encode()).digest()[2]
+        sep = os.environ.get("VERIF_SEPGIT", "1" if hv % 4 == 0 else "0") == "1"
+        if sep:
+            self.git("init", "-q", "--separate-git-dir", os.path.join(self.root, "sepgit"))
+        else:
+            self.git("init", "-q")
+        if self._info_exclude:
+            gd = os.path.join(self.root, "sepgit") if sep else os.path.join(self.repo, ".git")
+            os.makedirs(os.path.join(gd, "info"), exist_ok=True)
+            with open(os.path.join(gd, "info", "exclude"), "a") as f:
+                f.write(self._info_exclude)
         if commit:
             self.git("add", "-A")
             self.git("commit", "-q", "-m", "init")
@@ -171,7 +218,9 @@ class Fixture:
         except OSError:
             shutil.copyfile(self.bins["vhelper"], path)
             os.chmod(path, 0o755)
-        key = helper_key(path, tdir)
+        # the helper identifies itself by (argv[0], cwd): argv[0] is built by monorail from the work path as typed, the
+        # cwd is what the kernel reports (physical)
+        key = helper_key(os.path.join(self.wp, os.path.relpath(path, self.repo)), tdir)
         self.cmd_files[(target, cmd)] = (path, tdir, key)
         self.set_script(target, cmd, steps or [], ident)
         return key
@@ -212,17 +261,38 @@ class Fixture:
 
     # ------------------------------------------------------------------ monorail
     def monorail_cmd(self, args):
-        return [self.bins["monorail"], "-f", self.cfg_path] + list(args)
+        return [self.bins["monorail"], "-f", self.cfg_arg] + list(args)
 
-    def monorail(self, args, env=None, timeout=180, stdin=None, limit_as=None, prlimit=None):
+    def rel(self, p):
+        """Repository-relative form of a path monorail produced (it builds them from the work path as typed)."""
+        for base in (self.wp, self.repo):
+            if p.startswith(base + os.sep):
+                return p[len(base) + 1:]
+        return os.path.relpath(p, self.repo)
+
+    def monorail(self, args, env=None, timeout=180, stdin=None, limit_as=None, prlimit=None, allow_signal=False, cwd=None):
         """Run to completion. Returns dict rc, out (parsed stdout JSON or None), err (list of parsed stderr JSON),
         raw stdout/stderr. limit_as: address-space limit in bytes (the invocation may then die of it: rc -6)."""
+        # A lock failure while no other process of this fixture is alive means a FOREIGN process holds the port (another
+        # program on the machine picked the same number): interference, not behaviour -- the invocation is repeated (a
+        # lock failure happens before any effect).  A monorail that fails to get a free port fails every attempt alike.
+        for attempt in range(6):
+            r = self._monorail_once(args, env, timeout, stdin, limit_as, prlimit, allow_signal, cwd)
+            foreign = (r.get("rc") not in (0, None) and b"Lock acquisition failed" in (r.get("stderr") or b"")
+                       and b"in use" in (r.get("stderr") or b"")
+                       and all(q.poll() is not None for q in self.procs))
+            if not foreign:
+                return r
+            time.sleep(1.0 + attempt)
+        return r
+
+    def _monorail_once(self, args, env, timeout, stdin, limit_as, prlimit, allow_signal=False, cwd=None):
         cmd = self.monorail_cmd(args)
         if limit_as:
             cmd = ["prlimit", "--as=%d" % limit_as] + cmd
         if prlimit:
             cmd = ["prlimit"] + list(prlimit) + cmd
-        p = subprocess.Popen(cmd, cwd=self.repo, env=self.env(env), stdout=subprocess.PIPE,
+        p = subprocess.Popen(cmd, cwd=cwd or getattr(self, "default_cwd", None) or self.repo, env=self.env(env), stdout=subprocess.PIPE,
                              stderr=subprocess.PIPE, stdin=subprocess.PIPE if stdin is not None else subprocess.DEVNULL,
                              start_new_session=True)
         self.procs.append(p)
@@ -232,7 +302,7 @@ class Fixture:
             self.kill_group(p)
             so, se = p.communicate()
             return {"rc": None, "timeout": True, "out": None, "err": [], "stdout": so, "stderr": se}
-        if p.returncode is not None and p.returncode < 0 and limit_as:
+        if p.returncode is not None and p.returncode < 0 and (limit_as or allow_signal):
             return {"rc": p.returncode, "timeout": False, "out": None, "err": [], "stdout": so, "stderr": se}
         if p.returncode is not None and p.returncode < 0:
             # killed by a signal the harness did not send (e.g. the kernel's out-of-memory killer): an environment
@@ -294,6 +364,8 @@ class Fixture:
             except Exception:
                 pass
         shutil.rmtree(self.root, ignore_errors=True)
+        if self.tmpdir:
+            shutil.rmtree(self.tmpdir, ignore_errors=True)
         release_ports([self.lock_port, self.log_port])
 
 
